@@ -287,7 +287,7 @@ PROMQ = {"query": MST, "time": str(T0 + 1)}
 PROMR = {"query": MST, "start": str(T0 - 60), "end": str(T0 + 60), "step": "15"}
 
 
-def route_rules():
+def route_rules(tier="quick"):
     """ordered list of (regex on 'METHOD pattern', requirement, {variant: builder(ctx) -> dict(path?, params, body, headers, vars, fs_absent)})."""
     R = []
 
@@ -337,6 +337,21 @@ def route_rules():
         "disablewrite": lambda c: dict(params={"mod": "disablewrite", "switchon": "false" if c.scratch else "true"}),
         "readonly": lambda c: dict(params={"mod": "readonly", "switchon": "false" if c.scratch else "true"}),
         "flush": lambda c: dict(params={"mod": "flush"})})
+    if tier == "thorough":
+        mods = {"disableread": {"switchon": "true"}, "compen": {"switchon": "false", "allshards": "true"}, "merge": {"switchon": "false", "allshards": "true"},
+                "snapshot": {"duration": "30m"}, "downsample_in_order": {"order": "true"}, "chunk_reader_parallel": {"limit": "4"},
+                "binary_tree_merge": {"enabled": "1"}, "print_logical_plan": {"enabled": "1"}, "sliding_window_push_up": {"enabled": "1"},
+                "force_broadcast_query": {"enabled": "1"}, "time_filter_protection": {"enabled": "true"}, "log_rows": {"switchon": "true", "rules": MST + ",host=c19tagA"},
+                "verifynode": {"switchon": "false"}, "memusagelimit": {"limit": "90"}, "backgroundReadLimiter": {"limit": "100m"},
+                "interruptquery": {"switchon": "true"}, "uppermemusepct": {"limit": "90"}, "parallelbatch": {"enabled": "true"},
+                "write_stream_points_enable": {"switchon": "true"}, "failpoint": {"point": "c19-fp", "switchon": "true", "term": "return(true)"},
+                "backup_status": {}, "abort_backup": {}}
+        add(r"^POST /debug/ctrl$", ADMINREQ, {"mod=" + m: (lambda m, p: lambda c: dict(params=dict(p, mod=m)))(m, p) for m, p in mods.items()})
+        add(r"^GET /query$", READ1, {"select-chunked": lambda c: dict(params={"db": c.db, "q": "select * from " + MST, "chunked": "true", "chunk_size": "1"}),
+                                      "select-async": lambda c: dict(params={"db": c.db, "q": "select * from " + MST, "async": "true"}),
+                                      "select-pretty-epoch": lambda c: dict(params={"db": c.db, "q": "select * from " + MST, "pretty": "true", "epoch": "ms"})})
+        add(r"^POST /write$", WRITE1, {"precision-gzip": lambda c: dict(params={"db": c.db, "precision": "s"}, body=__import__("gzip").compress(("c19wz_%s,host=c19new v=1 %d" % (c.tag, T0)).encode(), mtime=0),
+                                                                          headers=dict(TEXT, **{"Content-Encoding": "gzip"}))})
     add(r"^POST /backup/run$", ADMINREQ, {"": lambda c: dict(params={"backupPath": os.path.join(c.srvdir, "bk_" + c.tag), "isInc": "false", "dataBases": c.db},
                                                             fs_absent=os.path.join(c.srvdir, "bk_" + c.tag))})
     add(r"^POST /backup/(abort|status)$", ADMINREQ, plain)
@@ -580,7 +595,22 @@ class World:
     # ---- fixture
     def start(self):
         self.srv.build()
-        self.srv.start(wait_s=180)
+        for attempt in range(4):
+            try:
+                self.srv.start(wait_s=180)
+                break
+            except ToolError as e:
+                # free_ports() closes the probe sockets before the server binds them: with several servers starting at once
+                # (ours and other checks') two can pick the same port; take fresh ports and a fresh directory and try again
+                self.srv.kill9()
+                if attempt == 3:
+                    raise
+                keep = os.path.join(self.srv.dir, "stdout-%d.log" % self.srv.starts)
+                tail = open(keep, errors="replace").read()[-400:] if os.path.exists(keep) else ""
+                checklib.log("server %s did not start (%s) %s -- retrying with new ports" % (self.srv.name, e, tail.replace("\n", " | ")))
+                shutil.rmtree(self.srv.dir, ignore_errors=True)
+                os.makedirs(self.srv.dir, exist_ok=True)
+                self.srv.ports = None
         # bootstrap: while no user exists an unauthenticated CREATE USER ... WITH ALL PRIVILEGES is accepted
         ok = False
         for attempt in range(10):
@@ -616,14 +646,18 @@ class World:
         for u, (pw, _) in USERS.items():
             stmts.append("create user %s with password '%s'" % (u, pw))
         for s in stmts:
-            self.admin_q(s)
+            for attempt in range(240):
+                st, js = self.admin_q(s, expect_ok=first)
+                if first or not (js and "being delete" in json.dumps(js)):
+                    break
+                time.sleep(0.5)  # the database an unauthorised request managed to drop is still being removed
         for u, (pw, grants) in USERS.items():
             for db in (D1, D2, S1, S2):
                 want = grants.get(db)
                 if not first:
-                    self.admin_q("revoke all on %s from %s" % (db, u))
+                    self.admin_q("revoke all on %s from %s" % (db, u), expect_ok=False)
                 if want:
-                    self.admin_q("grant %s on %s to %s" % (want, db, u))
+                    self.admin_q("grant %s on %s to %s" % (want, db, u), expect_ok=first)
         if self.product == "logkeeper":
             # log keeper: points cannot be written through /write (the server does not survive it); the fixture is catalogue only
             self.ensure_logstreams()
@@ -632,10 +666,10 @@ class World:
         lines2 = "c19m2,host=c19tagC v=3 %d000000000" % T0
         for db, lines in ((D1, lines1), (S1, lines1), (D2, lines2), (S2, lines2)):
             st, body = self.admin_write(db, lines)
-            if st != 204:
+            if st != 204 and first:
                 raise ToolError("fixture write to %s: %s %r" % (db, st, body[:200]))
         st, body = self.admin_write(S2, "c19probe v=1 %d000000000" % T0)
-        if st != 204:
+        if st != 204 and first:
             raise ToolError("probe write: %s %r" % (st, body[:200]))
 
     def ensure_logstreams(self):
@@ -678,7 +712,7 @@ class World:
     FIXROWS = {D1: {(MST, T0 * 10**9, "c19tagA"), (MST, (T0 + 1) * 10**9, "c19tagB")}, D2: {("c19m2", T0 * 10**9, "c19tagC")}}
 
     def fixture_rows(self):
-        _, js = self.admin_q('select host, v from "%s"../.*/; select host, v from "%s"../.*/' % (D1, D2), expect_ok=False)
+        _, js = self.admin_q('select host, v from "%s".."%s"; select host, v from "%s".."c19m2"' % (D1, MST, D2), expect_ok=False)
         got = {}
         for db, res in zip((D1, D2), (js or {}).get("results", [])):
             rows = set()
@@ -721,18 +755,37 @@ class World:
             d = self.digest()
         self.base = d
 
-    def settle(self, timeout_s=120):
-        """visibility barrier: exactly the fixture points are readable (index visibility lags the acknowledgement)."""
+    def settle(self, timeout_s=120, strict=True):
+        """visibility barrier: the fixture points are readable (index visibility lags the acknowledgement)."""
         if self.product == "logkeeper":
-            return
+            return True
         t0 = time.time()
         got = {}
         while time.time() - t0 < timeout_s:
             got = self.fixture_rows()
             if got == self.FIXROWS:
+                return True
+            time.sleep(0.1)
+        if strict:
+            raise ToolError("visibility barrier: fixture rows %r, expected %r" % (got, self.FIXROWS))
+        return False
+
+    def end_barrier(self, timeout_s=120):
+        """everything acknowledged before now is readable: a point written now (scratch database) has become readable."""
+        if self.product == "logkeeper":
+            return
+        self.n_end = getattr(self, "n_end", 0) + 1
+        m = "c19end%d" % self.n_end
+        st, body = self.admin_write(S2, "%s v=1 %d000000000" % (m, T0))
+        if st != 204:
+            raise ToolError("end barrier write: %s %r" % (st, body[:200]))
+        t0 = time.time()
+        while time.time() - t0 < timeout_s:
+            _, js = self.admin_q('select count(v) from "%s".."%s"' % (S2, m), expect_ok=False)
+            if js and any(r.get("series") for r in js.get("results", [])):
                 return
             time.sleep(0.1)
-        raise ToolError("visibility barrier: fixture rows %r, expected %r" % (got, self.FIXROWS))
+        raise ToolError("end barrier: the sentinel point did not become readable")
 
     # ---- digest
     def _universe(self):
@@ -873,8 +926,10 @@ class World:
 
     def rebaseline(self, repair=False):
         if repair:
+            # a request acted although it must not: bring the fixture back as far as possible and go on from there
             self.repair_control()
             self.ensure_fixture()
+            self.settle(timeout_s=30, strict=False)
             self.universe = None
         self.base = self.digest()
 
@@ -988,8 +1043,12 @@ def run_case(world, case, creds, rep, only=None):
         if only and (cls, tr, cv) != only:
             continue
         verdict = case.req.verdict(cls)
+        answer_only = False
         if case.req.anonymous:
-            verdict = "sufficient"
+            # liveness/status/pre-flight: may answer anybody, but a credential-less request must still change nothing and
+            # must not hand out stored values -> judged like an insufficient case without the status oracle
+            answer_only = cls in NOCRED
+            verdict = "insufficient" if answer_only else "sufficient"
         key = "%s class=%s via=%s%s" % (case.name(), cls, tr, ("/" + cv) if cv else "")
         if verdict == "dontcare":
             rep["counters"]["cases_privilege_undecided_skipped"] += 1
@@ -1010,12 +1069,6 @@ def run_case(world, case, creds, rep, only=None):
                 rep["counters"]["sufficient_rejected"] += 1
                 if len(rep["sufficient_rejected"]) < 40:
                     rep["sufficient_rejected"].append("%s -> %s %s" % (key, st, body[:120].decode("latin1")))
-            if case.req.anonymous and cls in NOCRED:
-                # anonymous-allowed endpoints must still not hand out stored values
-                leak = [s for s in SENTINELS if s.encode() in body and s not in request_text(rq, mk())]
-                if leak:
-                    violation(rep, "data_disclosed_without_credentials", key, "anonymous-allowed endpoint answered with stored values %s: %s" % (leak, body[:300].decode("latin1")),
-                              replay_obj(W, case, cls, tr, cv, rq))
             if control:
                 W.repair_control()
             W.after_sufficient()
@@ -1041,7 +1094,11 @@ def run_case(world, case, creds, rep, only=None):
             changed.append("file system: %s was created" % rq["fs_absent"])
         leak = [s for s in SENTINELS if s.encode() in body and s not in request_text(rq, cred)]
         rejected = st in (401, 403) or (case.pattern == "/query" and st == 200 and only_errors(body))
-        if reached:
+        if answer_only:
+            rep["counters"]["anonymous_answers_checked"] += 1
+            rep["counters"]["insufficient_cases"] -= 1
+            rejected = True  # no status oracle: the endpoint may answer
+        elif reached:
             rep["_distinct"].add(h64(world.product, case.name(), cls, tr, cv))
         rep["counters"]["status_%d" % st] += 1
         if len(rep["samples"]) < 400 and (len(rep["samples"]) < 6 or h64(key) % 37 == 0):
@@ -1066,6 +1123,8 @@ def run_case(world, case, creds, rep, only=None):
         elif leak:
             violation(rep, "data_disclosed_without_credentials" if cls in NOCRED else "data_disclosed_without_privilege", key,
                       "answer contains stored values %s" % leak + detail_tail, ro)
+        elif answer_only:
+            pass
         elif rejected:
             rep["counters"]["rejected_401_403"] += 1
         elif st >= 400:
@@ -1180,8 +1239,43 @@ def new_report():
                 _distinct=set(), _per_kind={}, unreached=[], other_status=[], sufficient_rejected=[], uncovered=[], ref_non2xx=[])
 
 
-def build_cases(product, routes, examples_info, rep):
-    rules = route_rules()
+PATHMODS = ("trailing-slash", "double-slash", "upper-case", "dot-segment")
+
+
+def variants_of(rules, sig):
+    for rx, req, variants in rules:
+        if rx.search(sig):
+            return variants
+    return {}
+
+
+def req_of(rules, sig):
+    for rx, req, variants in rules:
+        if rx.search(sig):
+            return req
+    return NOANON
+
+
+def pathmod(builder, pattern, pm):
+    def b(c):
+        d = dict(builder(c))
+        vars_ = d.get("vars") or {}
+        path = d.get("path") or VAR_RE.sub(lambda m: urllib.parse.quote(vars_.get(m.group(1), "c19x"), safe=""), pattern)
+        if pm == "trailing-slash":
+            path = path + "/"
+        elif pm == "double-slash":
+            path = "/" + path
+        elif pm == "upper-case":
+            path = path.upper()
+        else:
+            path = "/c19x/.." + path
+        d["path"] = path
+        return d
+    return b
+
+
+def build_cases(product, routes, examples_info, rep, tier="quick"):
+    rules = route_rules(tier)
     cases = []
     for r in routes:
         sig = "%s %s" % (r["method"], r["pattern"])
@@ -1191,6 +1285,11 @@ def build_cases(product, routes, examples_info, rep):
                 matched = True
                 for vname, b in variants.items():
                     cases.append(Case("route", product, r["method"], r["pattern"], vname, b, req, route=r))
+        if matched and tier == "thorough" and r["kind"] == "mux":
+            # the same requests over non-canonical spellings of the path: whatever the router does with them, nothing may act
+            for vname, b in list(variants_of(rules, sig).items())[:1]:
+                for pm in PATHMODS:
+                    cases.append(Case("route", product, r["method"], r["pattern"], (vname + " " if vname else "") + "path:" + pm, pathmod(b, r["pattern"], pm), req_of(rules, sig), route=r))
         if not matched:
             rep["counters"]["routes_without_rule"] += 1
             rep["uncovered"].append("route without request rule (credential-less classes only): " + sig)
@@ -1253,7 +1352,7 @@ def sweep(tier, product, s1, scratch, rep, deadline_at, only=None, shard=0, nsha
         if product != "basic":
             base = {(r["method"], r["pattern"]) for r in s1["configs"]["basic"]}
             routes = [r for r in routes if (r["method"], r["pattern"]) not in base]
-        cases = build_cases(product, routes, s1, rep if shard == 0 else new_report())
+        cases = build_cases(product, routes, s1, rep if shard == 0 else new_report(), tier)
         covered = set()
         if product == "basic":
             sc, covered = statement_cases(product, s1, rep if shard == 0 else new_report())
@@ -1283,7 +1382,7 @@ def sweep(tier, product, s1, scratch, rep, deadline_at, only=None, shard=0, nsha
             flip_test(world, rep)  # (log keeper: /write is not usable, the privilege code is the same)
         # settled end state: nothing that lags behind the acknowledgements has appeared in the fixture databases
         if not only:
-            world.settle()
+            world.end_barrier()
             end = world.digest()
             ch = [d for d in world.diff(world.base, end) if d.startswith("data:")]
             rep["evaluations"] += 1
@@ -1307,7 +1406,12 @@ def _worker(args):
         covered = sweep(tier, product, s1, scratch, rep, deadline_at, shard=shard, nshard=nshard)
         rep["covered"] = sorted(covered or [])
     except ToolError as e:
-        rep["tool_error"] = "%s worker %d: %s" % (product, shard, e)
+        if rep["n_violations"]:
+            # the server state was damaged by requests that must not have acted: report those, not the follow-up failure
+            rep["exhaustive"] = False
+            rep["notes"].append("%s worker %d stopped after violations: %s" % (product, shard, str(e)[:300]))
+        else:
+            rep["tool_error"] = "%s worker %d: %s" % (product, shard, e)
     except Exception:
         import traceback
         rep["tool_error"] = "%s worker %d: %s" % (product, shard, traceback.format_exc()[-3000:])
